@@ -1077,7 +1077,8 @@ fn part_values<T: Tgt + Send + Sync>(env: &Env, cfg: &Cfg<T>, vals: &[mc::rgen::
                 Ok(Err((kind, what))) => {
                     // what the library's own typed reader makes of a well-formed record does not depend on the compressor
                     let sig = if kind == "lib-reader-fails" {
-                        let class: String = what.chars().filter(|c| !c.is_ascii_digit()).take(60).collect();
+                        // the stage that failed, not the wording of its error
+                        let class: String = what.split(':').next().unwrap_or("").to_string();
                         format!("C02|every-type|lib-reader-fails|{}|{}", v.mnemonic, class)
                     } else {
                         format!("C02|{}|every-type|{}|{}", comp_of(cfg.name), kind, v.mnemonic)
